@@ -192,11 +192,11 @@ func fullRangeLoop(info *types.Info, s ast.Stmt) (ast.Expr, *ast.BlockStmt, type
 			return nil, nil, nil
 		}
 		iv := identObj(info, init.Lhs[0])
-		cond, ok := l.Cond.(*ast.BinaryExpr)
-		if !ok || cond.Op != token.LSS || identObj(info, cond.X) != iv {
+		bound, ok := upperBound(info, l.Cond, iv)
+		if !ok {
 			return nil, nil, nil
 		}
-		call, ok := cond.Y.(*ast.CallExpr)
+		call, ok := unparen(bound).(*ast.CallExpr)
 		if !ok || builtinName(info, call) != "len" {
 			// allow a constant expression equal to the make length, e.g. i < maxIndex+1: not recognised here
 			return nil, nil, nil
@@ -208,4 +208,19 @@ func fullRangeLoop(info *types.Info, s ast.Stmt) (ast.Expr, *ast.BlockStmt, type
 		return call.Args[0], l.Body, iv
 	}
 	return nil, nil, nil
+}
+
+// upperBound: cond is `i < B` or `B > i` for the counter i; returns B.
+func upperBound(info *types.Info, cond ast.Expr, iv types.Object) (ast.Expr, bool) {
+	be, ok := unparen(cond).(*ast.BinaryExpr)
+	if !ok || iv == nil {
+		return nil, false
+	}
+	switch {
+	case be.Op == token.LSS && identObj(info, be.X) == iv:
+		return be.Y, true
+	case be.Op == token.GTR && identObj(info, be.Y) == iv:
+		return be.X, true
+	}
+	return nil, false
 }
